@@ -531,7 +531,7 @@ class World:
                     old._async_cancel()
                 self.browsers[bid] = b
                 if len(op) > 4 and op[4]:
-                    _TICKING[0] = 0       # the clock ticks between the two readings of the creation (purge, replay)
+                    _TICKING[0] = 0       # the clock ticks per reading during the creation (it is read once since the D23b repair)
                 try:
                     start_browser(b)      # the real _async_start
                 finally:
@@ -683,7 +683,7 @@ def build_line(probes, ops):
         elif k in ("LA", "LR", "BR"):
             t += [k, str(op[1])]
         elif k == "BA":
-            t += ["BA", str(op[1]), str(op[2]), str(op[2] + (1 if len(op) > 4 and op[4] else 0)), str(len(op[3]))] + [C.hs(x) for x in op[3]]
+            t += ["BA", str(op[1]), str(op[2]), str(len(op[3]))] + [C.hs(x) for x in op[3]]
         else:
             raise HarnessError(k)
     return " ".join(t)
